@@ -183,6 +183,8 @@ func (e *enc) instr(b *ssa.BasicBlock, st *State, ins ssa.Instruction) {
 		}
 		e.defers = append(e.defers, d)
 		st.cells[cell] = "true"
+		e.declare(cell+"_0", "Bool")
+		e.assertOnce("(not " + cell + "_0)")
 	case *ssa.RunDefers:
 		e.runDefers(st)
 	case *ssa.ChangeType:
